@@ -1636,8 +1636,18 @@ def execute(spec, options, sched_mode=None, knobs=None, defaults=None, label='ma
                 runner.run()
                 res.verdict = runner.failed
             else:
-                res.verdict = sys.modules['zope.testrunner'].run_internal(
-                    defaults, list(args), **(run_kwargs or {}))
+                if knobs.get('argv_from_sys'):
+                    # command-line use: the runner takes its arguments from sys.argv itself
+                    old_argv = sys.argv
+                    sys.argv = list(args)
+                    try:
+                        res.verdict = sys.modules['zope.testrunner'].run_internal(
+                            defaults, None, **(run_kwargs or {}))
+                    finally:
+                        sys.argv = old_argv
+                else:
+                    res.verdict = sys.modules['zope.testrunner'].run_internal(
+                        defaults, list(args), **(run_kwargs or {}))
         except Hang as e:
             res.hang = str(e)
         except StepCap:
